@@ -325,9 +325,19 @@ def is_ignored():
     tr.vars["repo_patterns"] = ("repo_patterns", "strlist")
     val2 = ast.parse(src, mode="eval").body
     uses = ast.unparse(f)
-    if "check_path = str(file_path.relative_to(self.project_root))" not in uses or "check_path = path_str" not in uses:
+    if "check_path = str(file_path.relative_to(self.project_root))" not in uses:
         raise Unsupported("is_ignored: check_path computation changed")
-    return defn("is_ignored_core (matches_pattern : string -> string -> bool) (check_path : string) (repo_patterns : list string)", "bool", tr.cond(val2))
+    if "check_path = path_str" in uses:
+        rerooted = "false"          # a path that is not below the (absolute) project root is matched as it was given
+    elif "check_path = self._reroot(file_path, path_str)" in uses:
+        got = [ast.unparse(x) for x in _body(find_func(cls, "_reroot"))]
+        want = ["try:\n    return str(file_path.resolve().relative_to(self.project_root.resolve()))\nexcept (ValueError, OSError):\n    return path_str"]
+        if got != want:
+            raise Unsupported("_reroot: body changed")
+        rerooted = "true"           # proposed_fixes/C14-ignore-reroot.diff: resolved and re-rooted at the project first
+    else:
+        raise Unsupported("is_ignored: check_path computation changed")
+    return defn("ignore_rerooted", "bool", rerooted) + defn("is_ignored_core (matches_pattern : string -> string -> bool) (check_path : string) (repo_patterns : list string)", "bool", tr.cond(val2))
 
 
 def matches_pattern():
